@@ -2,7 +2,7 @@
    silently.  Every access of the library is guarded by SBEPP_SIZE_CHECK with
    the accessed extent as (offset, size); the theorems are about that guard. *)
 From Coq Require Import ZArith Bool.
-From Sbepp Require Import Cursor SizeCheck CursorSpec CursorProofs.
+From Sbepp Require Import Cursor SizeCheck CursorSpec CursorProofs CheckedAccess CheckedAccessProofs.
 Local Open Scope Z_scope.
 
 Theorem C10_passed_check_means_in_bounds : forall b e off sz,
@@ -27,3 +27,44 @@ Theorem C10_legacy_begin_past_end_refuted :
   exists b e off sz, e < b /\ legacy_size_check b e off sz = true /\ e < b + off + sz.
 Proof. exact legacy_size_check_begin_past_end_refuted. Qed.
 Print Assumptions C10_legacy_begin_past_end_refuted.
+
+(* ---- the random-access API with the library's explicit size checks
+   (CheckedAccess.v: SBEPP_SIZE_CHECK calls in the order sbepp.hpp makes them,
+   interleaved with the reads; the model the correspondence run compares the
+   library with at every truncation point).  For ALL tables, buffers, paths. ---- *)
+
+(* no silent out-of-bounds: whatever the outcome, every byte range touched --
+   also before an assertion fires -- lies inside [0, len b) *)
+Theorem C10_checked_touches_inside : stmt_checked_touches_inside.
+Proof. exact checked_touches_inside. Qed.
+Print Assumptions C10_checked_touches_inside.
+
+(* the literal property text, without any hypothesis on table, buffer, view
+   start or arguments: no byte at or beyond the end of the view is touched *)
+Theorem C10_checked_nothing_beyond_end : stmt_checked_nothing_beyond_end.
+Proof. exact checked_nothing_beyond_end. Qed.
+Print Assumptions C10_checked_nothing_beyond_end.
+
+(* a returned value is the value of the unchecked Msg.v function, whose reads
+   are bounds-tested *)
+Theorem C10_checked_agrees_with_unchecked : stmt_checked_agrees.
+Proof. exact checked_agrees. Qed.
+Print Assumptions C10_checked_agrees_with_unchecked.
+
+(* a failed size check names an extent that is not inside the buffer *)
+Theorem C10_checked_report_justified : stmt_checked_report_justified.
+Proof. exact checked_report_justified. Qed.
+Print Assumptions C10_checked_report_justified.
+
+(* no spurious report: message inside the buffer, preconditions hold => the
+   checked operation returns the unchecked value *)
+Theorem C10_checked_no_spurious : stmt_checked_no_spurious.
+Proof. exact checked_no_spurious. Qed.
+Print Assumptions C10_checked_no_spurious.
+
+(* "every byte the operation READS lies inside the buffer => no report" is NOT
+   the library's behaviour: header views are checked as a whole (witness: a
+   buffer ending inside a dimension, after blockLength and numInGroup) *)
+Theorem C10_read_extent_criterion_refuted : ~ stmt_read_extent_criterion.
+Proof. exact read_extent_criterion_refuted. Qed.
+Print Assumptions C10_read_extent_criterion_refuted.
